@@ -39,7 +39,7 @@ def cfg_id(c):
 
 
 def one_arg(e):
-    return json.dumps({"ev": e["ev"], "row": e["row"], "mount": e.get("mount", "bare"), "variant": e.get("variant", ""),
+    return json.dumps({"ev": e["ev"], "row": e["row"], "mount": e.get("mount", "bare"), "boot": e.get("boot", "direct"), "variant": e.get("variant", ""),
                        "conc": e.get("conc", 0), "adminep": e.get("adminep", ""), "method": e.get("method", "")})
 
 
@@ -53,9 +53,9 @@ def describe(e, checks):
     r = e.get("row", {})
     if e.get("ev") == "Compile":
         return "configuration %s: compile accepted=%s booted=%s (%s)" % (cfg_id(r.get("cfg", {})), e.get("accepted"), e.get("booted"), e.get("err", "")[:200])
-    return ("%s %s %s [%s/%s, mount %s] with Authorization %s on configuration %s endpoint %d (credential %s/%s): status %s, "
+    return ("%s %s %s [%s/%s, mount %s, boot %s] with Authorization %s on configuration %s endpoint %d (credential %s/%s): status %s, "
             "items %s, queue %s, cache %s; failed check(s) %s" % (
-                r.get("tr"), e.get("method"), e.get("path"), e.get("variant"), e.get("kind"), e.get("mount"), json.dumps(e.get("auth")),
+                r.get("tr"), e.get("method"), e.get("path"), e.get("variant"), e.get("kind"), e.get("mount"), e.get("boot"), json.dumps(e.get("auth")),
                 cfg_id(r.get("cfg", {})), r.get("ep", 0), r.get("form"), r.get("whose"), e.get("status"), e.get("nitems"),
                 "changed %s" % e.get("delta") if e.get("pre") != e.get("post") else "unchanged",
                 "changed" if e.get("rpre") != e.get("rpost") else "unchanged", sorted(checks)))
@@ -92,15 +92,17 @@ def run(ctx):
     for s in ("pull", "admin", "compile"):
         ctx.count("gen_rows_" + s, sum(1 for x in rows if x["s"] == s))
     if ctx.quick:
-        waves = [dict(mounts="rotate", variants="rotate", concs="rotate", admin=2, shards=16)]
+        waves = [dict(mounts="rotate", variants="rotate", concs="rotate", reload="rotate", admin=2, shards=16)]
     else:
-        waves = [dict(mounts=m, variants="all", concs="all", admin=0, shards=64) for m in ("bare", "prefix", "shared")]
+        waves = [dict(mounts=m, variants="all", concs="all", reload="none", admin=0, shards=64) for m in ("bare", "prefix", "shared")]
+        # every configuration once more, reached by a hot reload from a different configuration
+        waves.append(dict(mounts="rotate", variants="rotate", concs="all", reload="all", admin=0, shards=32))
     counters = {}
     calls = 0
     for wi, w in enumerate(waves):
         out = os.path.join(ctx.shm, "trace-w%d" % wi)
         info = json.loads(vf.tool(TOOL, ["-rows", rows_file, "-out", out, "-shards", str(w["shards"]), "-seed", str(ctx.seed), "-scratch", ctx.shm,
-                                         "-mounts", w["mounts"], "-variants", w["variants"], "-concs", w["concs"], "-admin-cfgs", str(w["admin"]),
+                                         "-mounts", w["mounts"], "-variants", w["variants"], "-concs", w["concs"], "-reload", w["reload"], "-admin-cfgs", str(w["admin"]),
                                          "-workers", str(vf.NCPU)], timeout=2400).strip().splitlines()[-1])
         calls += info["calls"]
         for k, v in info["counters"].items():
@@ -113,7 +115,7 @@ def run(ctx):
             with open(files[0]) as f:
                 for raw in f:
                     e = json.loads(raw)
-                    if e["ev"] == "Call" and e["kind"] == "strict" and e["status"] in ("401", "Unauthenticated") and e["row"]["form"] in ("prefix", "casevar"):
+                    if e["ev"] == "Call" and e["kind"] == "strict" and e["row"]["ep"] >= 1 and e["status"] in ("401", "Unauthenticated") and e["row"]["form"] in ("prefix", "casevar"):
                         ctx.sample({k: e[k] for k in ("row", "mount", "variant", "method", "path", "auth", "status", "pre", "post", "rpre", "rpost")})
                         break
         triage(ctx, res, ctx.seed)
@@ -144,10 +146,13 @@ def run(ctx):
         missing.append("no admin call had an effect")
     if counters.get("compile.true", 0) == 0 or counters.get("compile.false", 0) == 0:
         missing.append("compile verdicts (accepted and rejected)")
-    if not ctx.quick:
-        for m in ("bare", "prefix", "shared"):
-            if counters.get("mount." + m, 0) == 0:
-                missing.append("mount " + m)
+    for m in ("bare", "prefix", "shared"):
+        if counters.get("mount." + m, 0) == 0:
+            missing.append("mount " + m)
+    for b in ("direct", "reload"):
+        for cls in ("unauth", "other"):
+            if counters.get("boot.%s.%s" % (b, cls), 0) == 0:
+                missing.append("boot %s class %s" % (b, cls))
     if missing:
         raise vf.Infra("vacuous run, not exercised: " + "; ".join(missing[:20]))
     ctx.count("variants_served", sum(v for k, v in counters.items() if k.startswith("variant.") and ".plain." not in k and k.endswith(".other")))
@@ -163,6 +168,8 @@ def run(ctx):
         "non-canonical spellings of an endpoint (trailing slash, dot segments, blanks, missing prefix) are only required to be safe",
         "a method other than POST on a pull endpoint may be answered 405 before authentication (no operation is addressed)",
         "a request to an endpoint no route declares may be answered 404 / NotFound instead of 401 when it has no effect",
+        "hot reload: half of the configurations (quick) / all of them once more (thorough) are reached by booting a different "
+        "configuration and reloading; the unconfigured token is then one that was valid before the reload",
         "quick tier thins concretisations / path variants / mounts by rotation (seeded); thorough runs all of them"]
     vf.write_evidence(ctx, "model_checking", RULE, exhaustive=True)
 
